@@ -59,6 +59,12 @@ def rec_params(cfg, phase, force_cdx=False):
 
 def case_of(cfg, seq, cuts=(), force_cdx=False):
     phases = []
+    if cfg.get('overwrite'):
+        # an earlier run left its files behind; this run starts on the same prefix without
+        # --warc-append, so nothing of the earlier run may survive in the index or archive
+        p0 = rec_params(dict(cfg, preexisting=False), 0, force_cdx)
+        phases.append(dict(rec=p0, items=[KINDS['canon'], KINDS['lfonly'], KINDS['binary']],
+                           cuts=[], discard=True))
     if cfg['preexisting']:
         # phase 0 creates the files that phase 1 appends to
         p0 = rec_params(dict(cfg, preexisting=False), 0, force_cdx)
@@ -194,6 +200,11 @@ def jobs(tier, seed, force_cdx=False):
                                                          'repeat'], repeat=3)]
     for cfg in cfgs:
         js.append(dict(cfg=cfg, seqs=seqs, force_cdx=force_cdx))
+    for compress, log, dedup in itertools.product([False, True], repeat=3):
+        cfg = dict(compress=compress, digests=True, cdx=True, rollover=False,
+                   preexisting=False, log=log, extra=False, dedup=dedup, overwrite=True)
+        js.append(dict(cfg=cfg, seqs=sequences(1, ORDER) if tier == 'quick' else
+                       sequences(2, ORDER[:8]), force_cdx=force_cdx))
     if seed:
         k = seed % len(js)
         js = js[k:] + js[:k]
@@ -245,6 +256,8 @@ def run_job(job, judge_name=None):
     cfg = job['cfg']
     ctag = ','.join('%s=%s' % (k, int(cfg[k]) if isinstance(cfg[k], bool) else cfg[k])
                     for k in BITS)
+    if cfg.get('overwrite'):
+        ctag += ',overwrite=1'
     seen = set()
     for seq in job['seqs']:
         for cuts in ([], [17, 40]):
